@@ -95,6 +95,17 @@ macro_rules! impl_digest {
                 compressor.finalize_dirty()
             }
         }
+        /// Verification hooks (compiled only with `--cfg cryptocorrosion_verif`): read and
+        /// overwrite the count of compressed blocks.
+        #[cfg(cryptocorrosion_verif)]
+        impl $groestl {
+            pub fn verif_counter(&self) -> u128 {
+                self.block_counter as u128
+            }
+            pub fn verif_set_counter(&mut self, v: u128) {
+                self.block_counter = v as u64;
+            }
+        }
         impl Default for $groestl {
             fn default() -> Self {
                 Self::new_truncated($bits::U32 / 2)
@@ -145,6 +156,15 @@ impl Default for Groestl224 {
         Groestl224(Groestl256::new_truncated(224))
     }
 }
+#[cfg(cryptocorrosion_verif)]
+impl Groestl224 {
+    pub fn verif_counter(&self) -> u128 {
+        self.0.verif_counter()
+    }
+    pub fn verif_set_counter(&mut self, v: u128) {
+        self.0.verif_set_counter(v)
+    }
+}
 impl digest::BlockInput for Groestl224 {
     type BlockSize = U64;
 }
@@ -174,6 +194,15 @@ pub struct Groestl384(Groestl512);
 impl Default for Groestl384 {
     fn default() -> Self {
         Groestl384(Groestl512::new_truncated(384))
+    }
+}
+#[cfg(cryptocorrosion_verif)]
+impl Groestl384 {
+    pub fn verif_counter(&self) -> u128 {
+        self.0.verif_counter()
+    }
+    pub fn verif_set_counter(&mut self, v: u128) {
+        self.0.verif_set_counter(v)
     }
 }
 impl digest::BlockInput for Groestl384 {
